@@ -24,6 +24,9 @@ class ToolError(Exception):
     pass
 
 
+VIOLATIONS_PRINTED = 0      # VIOLATION lines printed by this process (bin/check: they outrank a later tool error)
+
+
 def log(*a):
     print(*a, file=sys.stderr, flush=True)
 
@@ -272,6 +275,8 @@ class Check:
         path.write_text(json.dumps({"property": self.prop, "what": what, "replay": replay_obj}, indent=1))
         self.violations.append((what, str(path)))
         if n < 20:
+            global VIOLATIONS_PRINTED
+            VIOLATIONS_PRINTED += 1
             print(f"VIOLATION property={self.prop} replay={path}", flush=True)
             log(f"  -> {what}")
 
